@@ -2,6 +2,7 @@ package main
 
 import (
 	"fmt"
+	"os"
 	"go/constant"
 	"go/token"
 	"go/types"
@@ -245,6 +246,9 @@ func (e *Evaluator) Exec(fn *ssa.Function, args []V) Outcome {
 					e.depth++
 					o := e.Exec(f, av)
 					e.depth--
+					if os.Getenv("VERIF_DEBUG_EVAL") != "" {
+						fmt.Fprintf(os.Stderr, "inline %s(%v) -> %s\n", shortFn(f), av, o)
+					}
 					if o.Kind == "return" && len(o.Rets) == 1 {
 						fr.vals[x] = o.Rets[0]
 					} else if o.Kind == "return" && len(o.Rets) > 1 {
